@@ -211,9 +211,10 @@ prop("C13", "exploration",
      "(B) small-scope enumeration through the guarded friend: for every ncv <= 10 (14 thorough) and nev, Ritz arrays holding reals and conjugate pairs tied in every key in arbitrary order, arbitrary "
      "zero patterns of the Ritz estimates and every nconv: nev_adjusted() in range, pair not split, then the real restart() under the sanitizer. "
      "Non-trivial = run that went past the first factorization / every enumerated state; distinct by their parameters",
-     [dict(name="c13_g%d" % g, sources=["c13_safety.cpp"], flavour="asan", flags=["-DZOO_GROUP=%d" % g], deps=ZOO_DEPS + ["common/fachook.hpp"]) for g in (0, 1, 2)] +
-     [dict(name="c13n_g%d" % g, sources=["c13_safety.cpp"], flavour="asan-ndebug", flags=["-DZOO_GROUP=%d" % g], deps=ZOO_DEPS + ["common/fachook.hpp"]) for g in (0, 1, 2)],
-     assumptions=TRUST + ["termination is decided by the operator-application bound enforced inside the wrapper, never by wall-clock time"])
+     [dict(name="c13_g%d" % g, sources=["c13_safety.cpp"], flavour="asan", flags=["-DZOO_GROUP=%d" % g], deps=ZOO_DEPS + ["common/fachook.hpp"], cpu_limit=30, hang_is_violation=True) for g in (0, 1, 2)] +
+     [dict(name="c13n_g%d" % g, sources=["c13_safety.cpp"], flavour="asan-ndebug", flags=["-DZOO_GROUP=%d" % g], deps=ZOO_DEPS + ["common/fachook.hpp"], cpu_limit=30, hang_is_violation=True) for g in (0, 1, 2)],
+     assumptions=TRUST + ["termination is decided by the operator-application bound enforced inside the wrapper and, for a loop that applies no operator at all, by a budget of 30 CPU-seconds "
+                          "per case (cases take milliseconds; CPU time of the process, so machine load does not matter), confirmed by re-running the case alone; never by wall-clock time"])
 
 
 # ------------------------------------------------------------------------------------------ C14
@@ -223,7 +224,7 @@ prop("C14", "fault_enumeration",
      "application of the B-operator of generalized problems) the wrapper throws a private exception with a token at application k: the same exception object type and token must arrive at the caller "
      "(from init() iff k <= 2), and a following init(); compute() on the same solver must reproduce the baseline bit for bit; plus 120 (600) pairs of faults; allocated bytes before/after all cycles "
      "and LeakSanitizer at exit. An evaluation = one faulted run; non-trivial = a (solver, input) whose enumeration ran; distinct by (solver, input, n, nev, ncv, N, maxit)",
-     [dict(name="c14_g%d" % g, sources=["c14_fault.cpp"], flavour="asan", flags=["-DZOO_GROUP=%d" % g], deps=ZOO_DEPS + ["common/fachook.hpp"]) for g in (0, 1, 2)],
+     [dict(name="c14_g%d" % g, sources=["c14_fault.cpp"], flavour="asan", flags=["-DZOO_GROUP=%d" % g], deps=ZOO_DEPS + ["common/fachook.hpp"], case_timeout=900, cpu_limit=1500) for g in (0, 1, 2)],
      assumptions=TRUST + ["the fault is injected by a wrapper around the user's operator; PartialSVDSolver is not covered because its operator is internal"],
      exhaustive=True)
 
